@@ -4,7 +4,7 @@ IMPORTS = ("From Ergo Require Import Common.Base Pool.Model Pool.Cases.\n"
            "Local Open Scope Z_scope.\n")
 
 CORR = ["corr_verdicts", "corr_handled", "corr_lens"]
-SPEC = ["spec_one_worker", "spec_sender_kept", "spec_reply_reaches_caller", "spec_ring_size"]
+SPEC = ["spec_one_worker", "spec_sender_kept", "spec_reply_reaches_caller", "spec_ring_size", "spec_drop_iff_full"]
 
 
 def _run(c, name, n, seed=None, corr=CORR):
